@@ -3,7 +3,7 @@
 import coreprop
 
 PID = "C16"
-LEAN_MODULES = ['Verif.Inv.Kernel', 'Verif.Inv.GhostFree', 'Verif.Props.C16']
+LEAN_MODULES = ['Verif.Inv.Kernel', 'Verif.Inv.GhostFree', 'Verif.Inv.RegOk', 'Verif.Props.C16']
 PROFILES = ['fd', 'all', 'reentrant']
 TRUSTED_BASE = [
     "modelled, not verified: Linux epoll as used by polling 3.x (registration table + FIFO ready list, level/edge/oneshot), eventfd counters, std mpsc as a FIFO queue (single-threaded view), BinaryHeap pop order among equal deadlines (histories use distinct deadlines), Rc/RefCell as reference counts and borrow flags — all in lean/Verif/Model/{Kernel,Wheel,Slots,Loop}.lean and exercised against the real kernel/crate by the correspondence",
